@@ -93,7 +93,7 @@ def judge(V, bad_all, reasons, drivers):
                      {"driver": d, "bad": b, "events": evs})
 
 
-def evidence(pid, ctx, V, stats, t0, drivers, rule_extra=""):
+def evidence(pid, ctx, V, stats, t0, drivers, rule_extra="", extra=None):
     gen_states = sum(g["tlc_states"] for g in stats["gen"])
     cov = {"states": gen_states + stats["tstates"], "transitions": sum(g["tlc_generated"] for g in stats["gen"]) + stats["events"],
            "generator_models": stats["gen"], "traces_validated_against_impl": stats["scenarios"],
@@ -101,6 +101,7 @@ def evidence(pid, ctx, V, stats, t0, drivers, rule_extra=""):
            "evaluations": stats["scenarios"], "distinct_nontrivial": stats["scenarios"],
            "rule": "every behaviour of ReasmGen.tla within the bounds (segments = all intervals of the stream, SYN, FIN, FlushAll, age flushes) is replayed under 1-2 seeded configurations (page limit, KeepFrom policy, forced start, ISN incl. wrap positions, bytes per unit up to multi-page) plus random multi-connection scenarios; each (behaviour, configuration) is distinct. " + rule_extra,
            "assemblers": drivers, "samples": stats["samples"], "exhaustive": True}
+    cov.update(extra or {})
     vlib.write_evidence(pid, ctx.tier, ctx.seed, "model_checking", cov, time.time() - t0, len(V.violations),
                         ["stream positions are inferred from delivered content (content encodes offset)",
                          "in-flight distance < 2^30 (documented quarter-space heuristic)",
